@@ -310,9 +310,13 @@ def notation(rng, z, allow_deg=False):
     import cmath
     import math
     r = rng.random()
-    if r < 0.4:
+    big = max(abs(z.real), abs(z.imag))
+    if r < 0.4 or big > 1e150 or (0 < big < 1e-150) or z == 0:
+        return {"real": z.real, "imag": z.imag}      # extreme magnitudes are written in Cartesian form only
+    try:
+        a, ph = abs(z), cmath.phase(z)
+    except (OverflowError, ValueError):
         return {"real": z.real, "imag": z.imag}
-    a, ph = abs(z), cmath.phase(z)
     ph += rng.choice([0, 0, 2 * math.pi, -2 * math.pi, 4 * math.pi])
     if rng.random() < 0.15:
         a, ph = -a, ph + math.pi
@@ -334,9 +338,9 @@ def gen_net_description(rng, degenerate=False):
         a, b = (nodes[0], nodes[1]) if i == 0 else rng.sample(nodes, 2)
         e = {"type": k, "id": names[i], "N1": a, "N2": b}
         if k == "resistor":
-            e["R"] = rng.choice(R_VALUES)
+            e["R"] = rng.choice(R_VALUES + [0, -5, 1e-12, 7, 2.0])
         elif k == "conductor":
-            e["G"] = 1 / rng.choice(R_VALUES)
+            e["G"] = rng.choice([1 / rng.choice(R_VALUES), 0, -0.5, 3])
         elif k == "impedance":
             e["Z"] = notation(rng, cx(rng) * 10)
         elif k == "admittance":
@@ -345,14 +349,18 @@ def gen_net_description(rng, degenerate=False):
             e["I"] = notation(rng, cx(rng)); e["Y"] = notation(rng, cx(rng) * 0.1)
         elif k == "current_source":
             e["I"] = notation(rng, cx(rng))
+            if rng.random() < 0.3:
+                e["Y"] = rng.choice([0, 0.5, 1e-3, 2])                  # optional raw admittance
         elif k == "real_current_source":
-            e["I"] = rng.choice(I_VALUES); e["Y"] = 1 / rng.choice(R_VALUES)
+            e["I"] = rng.choice(I_VALUES + [0, -0.0]); e["Y"] = rng.choice([1 / rng.choice(R_VALUES), 0, 1])
         elif k == "linear_voltage_source":
             e["V"] = notation(rng, cx(rng) * 5); e["Z"] = notation(rng, cx(rng) * 10)
         elif k == "voltage_source":
             e["V"] = notation(rng, cx(rng) * 5)
+            if rng.random() < 0.3:
+                e["Z"] = rng.choice([0, 10, 0.5, 1e3])                  # optional raw impedance
         elif k == "real_voltage_source":
-            e["V"] = rng.choice(V_VALUES); e["Z"] = rng.choice(R_VALUES)
+            e["V"] = rng.choice(V_VALUES + [0, -1e-9]); e["Z"] = rng.choice(R_VALUES + [0])
         keys = list(e.keys())
         rng.shuffle(keys)                       # key order of an entry is not significant
         ents.append({k2: e[k2] for k2 in keys})
@@ -450,7 +458,12 @@ def gen_cir_description(rng, degenerate=False):
     return rec
 
 
-STRINGS = ["a", "Ω", "μF", "x y", "", "null", "1", "ä→b", "real", "abs"]
+STRINGS = ["a", "Ω", "μF", "x y", "", "null", "1", "ä→b", "real", "abs", "1e3", "on", "off", "yes", "no", "~", "0x10", "1_000",
+           "3.0", "-.inf", ".nan", "2021-01-01", "true", "NULL", " lead", "trail ", "two\nlines", "#hash", "a: b", "'q'", "[1]", "{x}",
+           "1+2j", "-", "?", "!!float 1", "\\"]
+FLOATS = [0.5, -1.25, 1e-9, 3.141592653589793, 1e22, 0.1, -0.0, 1e-300, 1.7976931348623157e308, 5e-324, 0.30000000000000004,
+          123456789.12345679, 1e16, 1.0, 100.0, 2.5e-5, -7.0e15, 0.1 + 0.7]
+INTS = [0, 1, -7, 42, 10**6, 9007199254740993, -2**63, 2**64, 255]
 
 
 def gen_document(rng, depth=0, python_form=True):
@@ -461,6 +474,8 @@ def gen_document(rng, depth=0, python_form=True):
         r = rng.random()
         if r < 0.3:
             z = cx(rng)
+            if rng.random() < 0.25:
+                z = complex(rng.choice(FLOATS), rng.choice(FLOATS))
             if python_form:
                 return z
             n = notation(rng, z)
@@ -471,9 +486,9 @@ def gen_document(rng, depth=0, python_form=True):
                 n = {"abs": n["abs"], "phase_deg": n["phase"] * 180 / math.pi}
             return n
         if r < 0.5:
-            return rng.choice([0, 1, -7, 42, 10**6])
+            return rng.choice(INTS)
         if r < 0.7:
-            return rng.choice([0.5, -1.25, 1e-9, 3.141592653589793, 1e22, 0.1])
+            return rng.choice(FLOATS)
         if r < 0.85:
             return rng.choice(STRINGS)
         if r < 0.92:
